@@ -119,6 +119,26 @@ func c01Case(t *testing.T, rec *kit.Rec, cfg c01Config, ti int, large bool) {
 		rec.Inconclusive("tree generation failed: %v", err)
 		return
 	}
+	if large || ti%3 == 0 {
+		// the restorer has a separate code path for files with more than 25 blobs; feed it a
+		// file with many chunks among which non-zero chunks repeat (periodic data, disk images)
+		// and zero runs in between
+		blk := rng.Bytes(rng.Range(1<<20, 3<<20))
+		var buf []byte
+		buf = append(buf, rng.Bytes(rng.Range(1, 700000))...)
+		for len(buf) < rng.Range(36<<20, 48<<20) {
+			buf = append(buf, blk...)
+			if rng.Chance(1, 6) {
+				buf = append(buf, make([]byte, rng.Range(1, 2<<20))...)
+			}
+		}
+		buf = append(buf, rng.Bytes(rng.Range(0, 300000))...)
+		if err := os.WriteFile(filepath.Join(src, "zz-periodic-many-chunks.bin"), buf, 0o640); err != nil {
+			t.Fatal(err)
+		}
+		entries = append(entries, kit.GenEntry{Path: "zz-periodic-many-chunks.bin", Kind: "file", Size: int64(len(buf))})
+		rec.Count("many_chunk_periodic_files", 1)
+	}
 	if err := e.Init(cfg.Version); err != nil {
 		rec.Violation("init-failed", fmt.Sprintf("init failed: %v", err), desc)
 		return
